@@ -487,6 +487,11 @@ CliStreamStep(ev) ==
       m    == Len(idx)
       usable == ev.code = 0 /\ nine /\ Len(ev.snaps) = m
       Empty == [header |-> <<>>, sep |-> <<>>, rows |-> <<>>]
+      \* position slots of aircraft a after the first j frames that reached the decoder; the whole run takes far less than the
+      \* 10 s pairing window (checked: ev.wall_ms), so all receive times are taken as equal
+      RECURSIVE SlotsUpTo(_, _)
+      SlotsUpTo(j, a) == IF j = 0 THEN NoAux.slots
+                         ELSE IF lis[idx[j]].a = a THEN SlotsAfter(SlotsUpTo(j - 1, a), lis[idx[j]].f, 0, 0) ELSE SlotsUpTo(j - 1, a)
       StepOK(k) ==
         LET f    == lis[idx[k]].f
             a    == lis[idx[k]].a
@@ -501,12 +506,23 @@ CliStreamStep(ev) ==
             \* a value wider than its column shifts the rest of the line (C14 allows that): such a line is not parsed
             fit  == (r0 = <<>> \/ Len(r0[1]) = Len(s0.header)) /\ (r1 = <<>> \/ Len(r1[1]) = Len(s1.header))
             tg   == "frame." \o ToString(k)
+            vd   == PairVerdict(SlotsAfter(SlotsUpTo(k - 1, a), f, 0, 0), f)
+            lat0 == IF r0 = <<>> THEN <<>> ELSE Trim(CellBy(s0.header, Cols(s0.sep), r0[1], N_LATITUDE))
+            lon0 == IF r0 = <<>> THEN <<>> ELSE Trim(CellBy(s0.header, Cols(s0.sep), r0[1], N_LONGITUDE))
+            lat1 == IF r1 = <<>> THEN <<>> ELSE Trim(CellBy(s1.header, cols, r1[1], N_LATITUDE))
+            lon1 == IF r1 = <<>> THEN <<>> ELSE Trim(CellBy(s1.header, cols, r1[1], N_LONGITUDE))
+            posOK == IF Free(f) \/ IsSurface(f) \/ vd.k = "free" \/ ev.wall_ms >= 9000 THEN TRUE
+                     ELSE IF vd.k = "decode" THEN
+                          LET la == ParseDeg(lat1)  lo == ParseDeg(lon1) IN
+                          la # <<>> /\ lo # <<>> /\ Abs(la[1] - vd.lat) <= 10 /\ Abs(lo[1] - vd.lon) <= 10
+                     ELSE lat1 = lat0 /\ lon1 = lon0
             others == \A b \in SnapAddrs(s0) \ {a} : SnapRow(s1, b) # <<>> /\ DropAges(SnapRow(s1, b)[1]) = DropAges(SnapRow(s0, b)[1])
         IN  /\ Chk("C11", "cli.present", r1 # <<>>, ev, tg)
             /\ Chk("C11", "cli.others", others /\ SnapAddrs(s1) \subseteq SnapAddrs(s0) \cup {a}, ev, tg)
             /\ (r1 = <<>> \/ Free(f) \/ ~fit \/
                  (/\ Chk("C11", "cli.alt", AdmAlt(pre, post.alt, f, ctx), ev, tg)
                   /\ Chk("C11", "cli.squawk", AdmSq(pre, post.sq, f, ctx), ev, tg)
+                  /\ Chk("C11", "cli.position", posOK, ev, tg)
                   /\ Chk("C11", "cli.callsign", IsCommB(f) \/ AdmCs(pre, post.cs, f, ctx), ev, tg)
                   /\ Chk("C11", "cli.gs", IsCommB(f) \/ AdmGs(pre, post.gs, f, ctx, NoAux.adv), ev, tg)
                   /\ Chk("C11", "cli.track", IsCommB(f) \/ IsSurface(f) \/ AdmTrk(pre, post.trk, f, ctx, NoAux.adv), ev, tg)
